@@ -51,6 +51,16 @@ def _has_id_intersection(parent: 'Task', children: Iterable['Task']):
     return len(parent_tree_ids.intersection(new_task_ids)) > 0
 
 
+def _has_dependency_with_parents(task: 'Task', new_parent: 'Task') -> bool:
+    """True if task or one of its children is linked (predecessor/successor) with new_parent or one of its parents"""
+    new_parents = [new_parent] + [p for p in new_parent.all_parents]
+    for t in [task] + [ch for ch in task.all_children]:
+        for linked in t.predecessors + t.successors:
+            if linked in new_parents:
+                return True
+    return False
+
+
 def _check_not_none(obj: Any, name: str):
     if obj is None:
         raise RuntimeError(f"{name} is None")
@@ -727,6 +737,9 @@ class Task:
             if parent in self.all_children:
                 raise RuntimeError(f"Task {parent.id} is a child of task {self.id}. Can't make child "
                                    f"a parent of its parent")
+            if _has_dependency_with_parents(self, parent):
+                raise RuntimeError(f"Task {self.id} or its children are linked with task {parent.id} or its "
+                                   f"parents. Can't make predecessor or successor a parent")
 
         if self.__parent is not None and self in self.__parent.__children:
             self.__parent.__children.remove(self)
@@ -792,6 +805,9 @@ class Task:
                 raise RuntimeError(f"Task {self.id} can't be a child of itself")
             if self in ch.all_children:
                 raise RuntimeError(f"Task {self.id} is a child of {ch.id}. Can't make child a parent of its parent")
+            if _has_dependency_with_parents(ch, self):
+                raise RuntimeError(f"Task {ch.id} or its children are linked with task {self.id} or its parents. "
+                                   f"Can't make predecessor or successor a child")
 
         for v in self.__children:
             v.__parent = None
